@@ -395,7 +395,7 @@ def compare(fx, st):
         if p["tab"][k] != st["tab"][k]:
             return "tab[%s]=%s vs spec %s" % (k, p["tab"][k], st["tab"][k])
         if fx.fresh:
-            if list(p["pobj"][k]) != list(st["pobj"][k]):
+            if sorted(p["pobj"][k]) != sorted(st["pobj"][k]):        # (which proxy object is listed first is not a fact of the code)
                 return "proxy objects of %s have counts %s vs spec %s" % (k, p["pobj"][k], list(st["pobj"][k]))
         elif p["proxy"][k] != st["proxy"][k]:
             return "proxy[%s]=%s vs spec %s" % (k, p["proxy"][k], st["proxy"][k])
